@@ -120,6 +120,10 @@ Proof.
   - cbn [fst x_c]. apply N.le_refl.
   - destruct (find_thr i (x_thr s)) as [t|]; [|cbn [fst]; apply N.le_refl].
     destruct (tstep (c_rec (x_c s)) t) as [rec' [t'|res]]; cbn [fst x_c c_cur]; apply N.le_refl.
+  - cbn [fst x_c]. apply N.le_refl.
+  - destruct (find_thr i (x_thr s)) as [[]|]; cbn [fst]; try apply N.le_refl.
+    destruct (race_read _ _); cbn [fst x_c]; apply N.le_refl.
+  - destruct (find_thr i (x_thr s)) as [[]|]; cbn [fst x_c]; apply N.le_refl.
 Qed.
 
 Lemma forall_tinv_mono rec rec' (l : list (N * tstate)) :
@@ -128,21 +132,25 @@ Proof. intros Hle H. eapply Forall_impl; [|exact H]. intros p Hp. exact (tinv_mo
 
 (* every step - of a sequential request, or one engine call of any compaction thread - keeps the system well-formed
    and does not lower the floor *)
+Definition is_seq (op : cop) : Prop :=
+  match op with CSpawn _ _ _ | CThread _ _ | CRSpawn _ _ | CReadCheck _ _ | CReadScan _ _ => False | _ => True end.
+
 Lemma xstep_spec s op :
   xwf s -> c_cur (x_c (fst (xstep s op))) < two64 ->
   xwf (fst (xstep s op)) /\ floor s <= floor (fst (xstep s op)).
 Proof.
   intros (Hw & Hc & Ht) Hb.
-  assert (Hseq : forall op', (forall i r n, op' <> CSpawn i r n) -> (forall i ph, op' <> CThread i ph) ->
+  assert (Hseq : forall op', is_seq op' ->
             xstep s op' = (let '(c', o) := cstep (x_c s) op' in (mkX c' (x_thr s), o))).
-  { intros op' H1 H2. destruct op'; try reflexivity; [exfalso; eapply H1; eauto|exfalso; eapply H2; eauto]. }
-  assert (Hord : (forall i r n, op <> CSpawn i r n) -> (forall i ph, op <> CThread i ph) ->
-            xwf (fst (xstep s op)) /\ floor s <= floor (fst (xstep s op))).
-  { intros H1 H2. rewrite (Hseq op H1 H2) in *. destruct (cstep (x_c s) op) as [c' o] eqn:E. cbn [fst x_c] in *.
+  { intros op' H1. destruct op'; try reflexivity; destruct H1. }
+  assert (Hord : is_seq op -> xwf (fst (xstep s op)) /\ floor s <= floor (fst (xstep s op))).
+  { intros H1. rewrite (Hseq op H1) in *. destruct (cstep (x_c s) op) as [c' o] eqn:E. cbn [fst x_c] in *.
     assert (Ec : c' = fst (cstep (x_c s) op)) by (rewrite E; reflexivity).
     destruct (cstep_spec (x_c s) op Hw) as (A1 & A2 & A3); [rewrite <- Ec; exact Hb|]. rewrite <- Ec in *.
     split; [split; [exact A1|split; [exact Hb|]]|exact A3]. cbn [x_thr]. eapply forall_tinv_mono; eauto. }
-  destruct op; try (apply Hord; intros; discriminate).
+  assert (Hrd : forall rev, tinv (c_rec (x_c s)) (TReadGet rev) /\ tinv (c_rec (x_c s)) (TReadScan rev)).
+  { intros rev. split; (split; [split; [reflexivity|exact I]|exact I]). }
+  destruct op; try (apply Hord; exact I).
   - (* spawn *)
     cbn [xstep fst x_c] in *. split; [|unfold floor; cbn; lia].
     split; [exact Hw|]. split; [exact Hc|]. cbn [x_thr]. apply Forall_app. split; [apply drop_thr_forall; exact Ht|].
@@ -162,6 +170,18 @@ Proof.
       constructor; [exact S2|constructor].
     + split; [|exact S3].
       split; [exact S1|]. split; [exact Hb|]. apply drop_thr_forall; exact Ht'.
+  - (* a read thread enters *)
+    cbn [xstep fst x_c] in *. split; [|unfold floor; cbn; lia].
+    split; [exact Hw|]. split; [exact Hc|]. cbn [x_thr]. apply Forall_app. split; [apply drop_thr_forall; exact Ht|].
+    constructor; [apply Hrd|constructor].
+  - (* its check *)
+    cbn [xstep] in *. destruct (find_thr i (x_thr s)) as [[]|]; cbn [fst] in *; try (split; [split; [exact Hw|split; assumption]|lia]).
+    destruct (race_read (c_rec (x_c s)) rev0); cbn [fst x_c x_thr] in *; (split; [|unfold floor; cbn; lia]);
+      (split; [exact Hw|]); (split; [exact Hc|]); cbn [x_thr]; try (apply drop_thr_forall; exact Ht).
+    apply Forall_app. split; [apply drop_thr_forall; exact Ht|]. constructor; [apply Hrd|constructor].
+  - (* its scan *)
+    cbn [xstep] in *. destruct (find_thr i (x_thr s)) as [[]|]; cbn [fst] in *; try (split; [split; [exact Hw|split; assumption]|lia]).
+    cbn [x_c x_thr]. split; [|unfold floor; cbn; lia]. split; [exact Hw|]. split; [exact Hc|]. apply drop_thr_forall; exact Ht.
 Qed.
 
 Lemma xrun_cur_mono ops : forall s, c_cur (x_c s) <= c_cur (x_c (xrun s ops)).
@@ -197,9 +217,33 @@ Qed.
 
 Definition c08_valid (c : c08_case) : Prop := c8_init c < two64 /\ Forall (fun st => s8_cur st < two64) (c8_steps c).
 
+(* what the oracle may say on a history the model reproduces: nothing *)
+Definition ok8 (o : option N) : Prop := o = None.
+
+Lemma worse8_ok a b : ok8 a -> ok8 b -> ok8 (worse8 a b).
+Proof. intros -> ->. reflexivity. Qed.
+
+Lemma race_read_floor rec r : rec_wf rec -> race_read rec r = (if r <? floor_of rec then RErr else RData).
+Proof.
+  intros [-> | [c [-> Hc]]]; [destruct r; reflexivity|]. rewrite floor_of_be64 by exact Hc. cbn [race_read]. rewrite u64_of_be64 by exact Hc. reflexivity.
+Qed.
+
+Lemma read_check_sound s st s' o :
+  xwf s -> label_ok s (s8_op st) = true -> xstep s (s8_op st) = (s', o) -> o = s8_obs st ->
+  read_check_ok (floor s) st = true.
+Proof.
+  intros (Hwc & _ & _) Hl E Ho. unfold read_check_ok. rewrite <- Ho. destruct (s8_op st) as [| | | | | | | | | | |i rev|i rev|i rev]; try reflexivity.
+  - cbn [label_ok xstep] in *. destruct (find_thr i (x_thr s)) as [[| | | |r|r]|]; try discriminate.
+    apply N.eqb_eq in Hl. subst r. rewrite (race_read_floor _ rev Hwc) in E. fold (floor s) in E.
+    destruct (rev <? floor s); injection E as <- <-; reflexivity.
+  - cbn [label_ok xstep] in *. destruct (find_thr i (x_thr s)) as [[| | | |r|r]|]; try discriminate.
+    apply N.eqb_eq in Hl. subst r. rewrite (race_read_floor _ rev Hwc) in E. fold (floor s) in E.
+    destruct (rev <? floor s); injection E as <- <-; reflexivity.
+Qed.
+
 Lemma c08_run_orc steps : forall s,
   xwf s -> Forall (fun st => s8_cur st < two64) steps ->
-  c08_run s steps = true -> c08_orc (c_cur (x_c s)) (floor s) steps = None.
+  c08_run s steps = true -> ok8 (c08_orc (c_cur (x_c s)) (floor s) steps).
 Proof.
   induction steps as [|st t IH]; intros s Hw Hv Hrun; [reflexivity|].
   inversion Hv as [|? ? Hv1 Hv2]; subst.
@@ -212,8 +256,9 @@ Proof.
   2:{ assert (Enf : next_floor st = floor_of (s8_rec st)).
       { unfold c08_step_ok in Hok. apply andb_true_iff in Hok as [Hok _]. apply andb_true_iff in Hok as [_ Hacc].
         unfold next_floor. destruct (accepted st) as [h|]; [|reflexivity]. apply N.leb_le in Hacc. apply N.max_l. exact Hacc. }
-      cbn [c08_orc]. rewrite Enf, <- H1, <- H0. fold (floor s'). rewrite (N.max_r _ _ Hmono). rewrite (IH s' Hw' Hv2 H).
-      unfold c08_step_verdict; rewrite Hok; reflexivity. }
+      cbn [c08_orc]. rewrite Enf, <- H1, <- H0. fold (floor s'). rewrite (N.max_r _ _ Hmono).
+      apply worse8_ok; [|exact (IH s' Hw' Hv2 H)].
+      unfold c08_step_verdict. rewrite Hok, (read_check_sound s st s' o Hw Hrun E H2). reflexivity. }
   destruct Hw as (Hwc & Hcc & Htt). destruct Hw' as (Hwc' & _).
   unfold c08_step_ok. rewrite <- H0, <- H2.
   repeat (apply andb_true_iff; split).
@@ -243,4 +288,39 @@ Proof.
   intros [Hi Hv] Hc. unfold c08_oracle, c08_check in *.
   apply (c08_run_orc (c8_steps c) (mkX (mkC (c8_init c) 0 None) [])); [|exact Hv|exact Hc].
   split; [left; reflexivity|]. split; [exact Hi|constructor].
+Qed.
+
+(* ---------- range reads in two steps ---------- *)
+
+(* the check refuses a read below the floor ... *)
+Lemma read_check_refuses s i rev :
+  xwf s -> find_thr i (x_thr s) = Some (TReadGet rev) -> rev < floor s ->
+  snd (xstep s (CReadCheck i rev)) = ORead RErr.
+Proof.
+  intros (Hwc & _ & _) Ef Hlt. cbn [xstep]. rewrite Ef, (race_read_floor _ rev Hwc). fold (floor s).
+  apply N.ltb_lt in Hlt. rewrite Hlt. reflexivity.
+Qed.
+
+(* ... and a read that passes it was at or above the floor of that moment *)
+Lemma read_check_passes s i rev :
+  xwf s -> find_thr i (x_thr s) = Some (TReadGet rev) ->
+  snd (xstep s (CReadCheck i rev)) = OWrite -> floor s <= rev.
+Proof.
+  intros (Hwc & _ & _) Ef. cbn [xstep]. rewrite Ef, (race_read_floor _ rev Hwc). fold (floor s).
+  destruct (rev <? floor s) eqn:E; [discriminate|]. intros _. apply N.ltb_ge in E. exact E.
+Qed.
+
+Lemma read_check_spec s i rev :
+  xwf s -> find_thr i (x_thr s) = Some (TReadGet rev) ->
+  (rev < floor s -> snd (xstep s (CReadCheck i rev)) = ORead RErr) /\
+  (snd (xstep s (CReadCheck i rev)) = OWrite -> floor s <= rev).
+Proof. intros Hw Ef. split; [exact (read_check_refuses s i rev Hw Ef)|exact (read_check_passes s i rev Hw Ef)]. Qed.
+
+(* the scan step ends with the second check: below the floor of that moment the read is refused *)
+Lemma read_scan_refuses s i rev s' res :
+  xwf s -> find_thr i (x_thr s) = Some (TReadScan rev) ->
+  xstep s (CReadScan i rev) = (s', ORead res) -> rev < floor s -> res = RErr.
+Proof.
+  intros (Hwc & _ & _) Ef E Hlt. cbn [xstep] in E. rewrite Ef, (race_read_floor _ rev Hwc) in E. fold (floor s) in E.
+  apply N.ltb_lt in Hlt. rewrite Hlt in E. injection E as _ <-. reflexivity.
 Qed.
